@@ -14,6 +14,25 @@ the caller does with the arrays it got back) and with in-place changes of the st
 ts.x / ts.t, scaling, shifting, re-assignment, modify): after a change the *currently stored* samples are the reference. The
 "stored arrays" clauses are evaluated after every step of the history (checkpoints), so an earlier query is always followed
 by a later one on the same object.
+
+Classes of inputs added after the audit of the seeded-change rounds (each one a class inside the quantifier, none aimed at a change):
+* spellings — window limits as tuple / list / ndarray / numpy scalars / integers; step as float / numpy double / numpy single /
+  integer; requested times as ndarray / list / strided view / integer array / the same ndarray object handed to several calls;
+  filter arguments as tuple / list; options by keyword or all positional; the same request through TimeSeries.filter(), modify(),
+  min / max / mean, TsDB.geta / getda / to_dataframe and qats.app.funcs.calculate_trace; series built from float / integer /
+  single-precision arrays, strided views, datetime objects, or two objects from the very same source arrays;
+* boundaries — windows whose limits are sample times, one ulp beside a sample, a single instant, reversed, unbounded (inf), the
+  whole span; options that ask for nothing (taperfrac 0, window_len 0 / 1, a window containing everything, every option None);
+  series of one and two samples; data in another unit (x 2^+-60, 2^+-200) and time on an offset of 2^30 .. 2^40 (tolerances relative
+  to the unit / to ulp(|t|)); constant and integer-valued data;
+* histories — operations that must be refused (14 kinds) followed by valid ones; the same window / step / array asked earlier with
+  another setting; modify(resample=step / array) as in-place change; the first / last stored time edited in place and the time axis
+  re-scaled in place (span and average step change, the array object does not); the derived quantities (dt, is_constant_dt, ...)
+  read at every checkpoint; two series with the same time axis queried alternately with the same options; after every history
+  also a *tagged* request and an interpolation on the same object against the Lean model of the series as stored then;
+* references — stand-alone resampling on decimal grids is observed through an identity signal (x = t: the values are the new times)
+  and compared with numpy.interp; get(resample=step) on decimal grids is explored too (never raises, ends on the stored ends);
+* crashes — every case is wrapped: an exception of the implementation is a failing clause.
 """
 from datetime import datetime, timedelta
 from fractions import Fraction
@@ -34,7 +53,16 @@ RULE = ("seeded dyadic series (3-40 samples; uniform with power-of-two steps, or
         "element move, ts.x re-assignment, modify(twin)), the stored-array clauses being re-evaluated after every step "
         "(checkpoints) and the remaining inputs generated relative to the series as stored after the history; every "
         "tagged get() issued twice; float exploration of decimal (start, dt, n) for stand-alone resampling; non-trivial = any "
-        "option set; distinct by (series, options)")
+        "option set; distinct by (series, options). Every request also in other spellings (window as tuple / list / ndarray / numpy "
+        "scalars / integers, step as float / np.float64 / np.float32 / int, times as ndarray / list / strided view / integer array, "
+        "filterargs as tuple / list, keyword / positional, through filter() / modify() / min / max / mean / TsDB.geta / getda / "
+        "to_dataframe / app.funcs.calculate_trace; series from float / int / float32 arrays, views, datetime objects, shared source "
+        "arrays); windows on the boundary (limits = sample times, one ulp beside, single instant, reversed, infinite, whole span); "
+        "options that ask for nothing; series of 1 / 2 samples, data x 2^(+-60, +-200), time offsets 2^30 .. 2^40; histories with refused "
+        "operations (14 kinds), the same key argument under another setting, modify(resample=...), in-place edits of the first / last "
+        "time and re-scaling of the time axis, two series queried alternately; after each history a tagged request and an "
+        "interpolation on the same object against the model; decimal grids far from zero for resample() and get(resample=step), "
+        "new times observed through an identity signal")
 
 
 class Tags:
@@ -56,12 +84,14 @@ class Tags:
         def mkfilter(name):
             def f(x, *a, **kw):                      # positional or keyword call: (x, dt, fc…, order=…)
                 dt = kw.get("dt", a[0] if a else None)
-                self.calls.append((name, float(dt)))
+                nf = 1 if name in ("lowpass", "highpass") else 2
+                fr = list(a[1:1 + nf]) + [kw[k] for k in ("fc", "flow", "fupp") if k in kw]
+                self.calls.append((name, float(dt), [float(v) for v in fr]))
                 return 2.0 * np.asarray(x, dtype=float) + dt
             return f
 
         def smooth(x, *a, **kw):
-            self.calls.append(("smooth", kw.get("window_len", a[0] if a else None)))
+            self.calls.append(("smooth", kw.get("window_len", a[0] if a else None), kw.get("window", a[1] if len(a) > 1 else None)))
             return np.asarray(x, dtype=float) ** 2
         for name, fn in [("taper", taper), ("lowpass", mkfilter("lowpass")), ("highpass", mkfilter("highpass")),
                          ("bandpass", mkfilter("bandpass")), ("bandblock", mkfilter("bandblock")), ("smooth", smooth)]:
@@ -88,6 +118,41 @@ def gen_series(rng):
     return t, x
 
 
+BIG_T = 2 ** 20           # beyond this |t| the grid spacing of linspace is only accurate to a few ulp(|t|)
+
+
+def gen_series_wide(rng):
+    """gen_series plus the boundary classes: two samples only, data in other units (x 2^p, |p| up to 200: exact in floating
+    point), time axis on a large offset (2^40, -2^40, 10^9: the dyadic sample times stay exact), constant data, integer-valued.
+    Returns (t, x, p) where 2^p is the unit of the data."""
+    t, x = gen_series(rng)
+    k = rng.random()
+    if k < 0.08:
+        t, x = t[:2], x[:2]
+    elif k < 0.14:
+        x = [Fraction(rng.randint(-64, 64)) for _ in x]
+        if rng.random() < 0.5:      # integer times too: the series can be given as integer arrays, windows as integers
+            t0 = rng.randint(-4, 4)
+            t = [Fraction(t0 + i) for i in range(len(t))]
+    elif k < 0.17:
+        x = [x[0]] * len(x)
+    p = 0
+    if rng.random() < 0.14:
+        p = rng.choice([200, -200, 60, -60])
+        x = [v * Fraction(2) ** p for v in x]
+    if rng.random() < 0.12:
+        off = rng.choice([2 ** 40, -2 ** 40, 10 ** 9, 2 ** 30])
+        t = [u + off for u in t]
+    return t, x, p
+
+
+def xscale(x):
+    """magnitude of the data (1 for ordinary series): absolute tolerances are relative to it when the data are in another unit
+    (smaller than 1, or beyond 2^20 where differences of neighbouring samples cancel to rounding errors of that size)"""
+    m = max([abs(float(v)) for v in x] or [0.0])
+    return m if (m < 1.0 or m > BIG_T) else 1.0
+
+
 def gen_request(rng, t, p_out=0.4):
     """requested time array: points of the span (dyadic fractions of it, stored times, the two ends), sorted or shuffled, possibly
     with repeats; with probability p_out one or two values outside the span (far, 1/8, or one ulp) at any position"""
@@ -107,8 +172,26 @@ def gen_request(rng, t, p_out=0.4):
 REF0 = datetime(2020, 1, 1, 12, 0, 0)
 
 GETKW_QUERIES = ("min", "max", "mean", "std", "skew", "kurtosis", "rfc", "psd", "stats")
-QUERIES = ("get", "get_edit", "minima", "maxima", "interpolate", "resample", "filter", "copy", "props") + GETKW_QUERIES
-MUTATORS = ("set_dtg_ref", "edit_x", "set_x", "scale_x", "shift_t", "move_t", "assign_x", "modify")
+QUERIES = ("get", "get_edit", "minima", "maxima", "interpolate", "resample", "filter", "copy", "props", "bad", "entry") + GETKW_QUERIES
+MUTATORS = ("set_dtg_ref", "edit_x", "set_x", "scale_x", "shift_t", "move_t", "move_end", "scale_t", "assign_x", "modify", "modify_step",
+            "modify_req")
+# operations the implementation must refuse; a refused operation changes nothing and is followed by valid ones
+BAD_OPS = ("req_outside", "req_outside_list", "nd_twin", "int_step", "zero_step", "neg_dt", "interp_outside", "resample_t_outside",
+           "modify_outside", "modify_nd_twin", "twin3", "step_empty_window", "smooth_too_long", "bad_filter")
+# other public entry points that hand their options to get()
+ENTRIES = ("geta", "getda", "to_dataframe", "trace", "filter_twin", "positional")
+
+
+def uniform_pow2(t):
+    """spacing h if the (exact) times are equidistant with a power-of-two spacing (interpolation at k*h/2 is then exact), else None"""
+    if len(t) < 3:
+        return None
+    h = t[1] - t[0]
+    if any(t[i + 1] - t[i] != h for i in range(len(t) - 1)):
+        return None
+    if h <= 0 or (h.numerator != 1 and h.denominator != 1) or (h.numerator & (h.numerator - 1)) or (h.denominator & (h.denominator - 1)):
+        return None
+    return h
 
 
 def gen_getkw(rng, lo, hi, p_plain=0.0):
@@ -132,17 +215,21 @@ def gen_getkw(rng, lo, hi, p_plain=0.0):
     return kw
 
 
-def gen_step(rng, t, x, has_ref):
-    """one step of a history on the series currently stored as (t, x) (Fractions): a query (must not change anything) or an
-    in-place change of the stored arrays, as a JSON-able dict"""
+def gen_step(rng, t, x, has_ref, allow_dtg=True):
+    """one step of a history on the series currently stored as (t, x) (Fractions): a query (must not change anything), an
+    operation that must be refused (changes nothing either) or an in-place change of the stored arrays, as a JSON-able dict"""
     lo, hi = float(t[0]), float(t[-1])
     n = len(t)
     k = rng.random()
     if k < 0.25:
         return {"op": "get", "kw": gen_getkw(rng, lo, hi)}
     if k < 0.65:
-        op = rng.choice(["minima", "minima", "maxima", "maxima", "get_edit", "interpolate", "resample", "filter", "copy", "props"]
-                        + list(GETKW_QUERIES))
+        op = rng.choice(["minima", "minima", "maxima", "maxima", "get_edit", "interpolate", "resample", "filter", "copy", "props",
+                         "bad", "bad", "bad", "entry", "entry"] + list(GETKW_QUERIES))
+        if op == "bad":
+            return {"op": op, "what": rng.choice(BAD_OPS)}
+        if op == "entry":
+            return {"op": op, "via": rng.choice(ENTRIES), "kw": gen_getkw(rng, lo, hi, p_plain=0.2)}
         if op in ("minima", "maxima"):
             return {"op": op, "kw": gen_getkw(rng, lo, hi, p_plain=0.5), "local": rng.random() < 0.4, "rettime": rng.random() < 0.4}
         if op == "get_edit":
@@ -158,7 +245,19 @@ def gen_step(rng, t, x, has_ref):
         if op == "filter":
             return {"op": op, "args": rng.choice([["lp", 0.1], ["hp", 0.05], ["bp", [0.05, 0.2]], ["bs", [0.05, 0.2]], ["tp", 1.0]])}
         return {"op": op}
-    op = rng.choice(MUTATORS)
+    h = uniform_pow2(t)
+    ok = [m for m in MUTATORS if not (m == "set_dtg_ref" and not allow_dtg) and not (m in ("move_t", "modify") and n < 3)
+          and not (m in ("modify_step", "modify_req") and h is None)]
+    op = rng.choice(ok)
+    if op == "modify_step":
+        # the stored series becomes its own resampling: on a power-of-two grid the interpolated values are exact
+        ds = [h / 2, h] + ([2 * h] if (n - 1) % 2 == 0 and n >= 5 else [])
+        return {"op": op, "d": str(rng.choice(ds)), "spell": rng.choice(["float", "float", "np.float64", "np.float32"])}
+    if op == "modify_req":
+        pool = sorted(set(t) | set(u + h / 2 for u in t[:-1]))
+        m = rng.randint(3, min(len(pool), 9))
+        at = sorted(rng.sample(pool, m))
+        return {"op": op, "at": [str(u) for u in at], "spell": rng.choice(["ndarray", "ndarray", "list", "view"])}
     if op == "set_dtg_ref":
         return {"op": op, "shift": rng.choice([None, None, "15/2", "-9/4", "1/2", "30", "-1/8"])}
     if op == "edit_x":
@@ -169,6 +268,13 @@ def gen_step(rng, t, x, has_ref):
         return {"op": op, "by": rng.choice(["-1", "2", "1/2", "0"])}
     if op == "shift_t":
         return {"op": op, "by": rng.choice(["1/2", "-3/4", "10", "-8"])}
+    if op == "move_end":
+        # the first or last stored time is edited in place: span, duration and average step change, the number of samples does not
+        if rng.random() < 0.5:
+            return {"op": op, "i": 0, "value": str(rng.choice([t[0] - Fraction(rng.randint(1, 6), 4), t[0] + (t[1] - t[0]) / 2]))}
+        return {"op": op, "i": n - 1, "value": str(rng.choice([t[-1] + Fraction(rng.randint(1, 6), 4), t[-1] - (t[-1] - t[-2]) / 2]))}
+    if op == "scale_t":
+        return {"op": op, "by": rng.choice(["2", "1/2", "4"])}
     if op == "move_t":
         i = rng.randrange(1, n - 1)
         return {"op": op, "i": i, "value": str(t[i - 1] + Fraction(rng.choice([1, 2, 3]), 4) * (t[i + 1] - t[i - 1]))}
@@ -184,8 +290,9 @@ def step_op(h):
     return h.get("op", "get")           # histories written before the other operations existed: plain get() keyword dicts
 
 
-def model_step(t, x, has_ref, h):
-    """the series stored after step h, in exact arithmetic (queries change nothing)"""
+def model_step(t, x, has_ref, h, xmul=1):
+    """the series stored after step h, in exact arithmetic (queries and refused operations change nothing); `xmul` is the unit
+    of the data (a power of two): the data constants of a step are given in that unit"""
     op = step_op(h)
     t, x = list(t), list(x)
     if op == "set_dtg_ref":
@@ -197,31 +304,42 @@ def model_step(t, x, has_ref, h):
         else:
             has_ref = True                           # no earlier reference: nothing to shift
     elif op == "edit_x":
-        x[h["i"]] += Fraction(h["add"])
+        x[h["i"]] += Fraction(h["add"]) * xmul
     elif op == "set_x":
-        x[h["i"]] = Fraction(h["value"])
+        x[h["i"]] = Fraction(h["value"]) * xmul
     elif op == "scale_x":
         x = [v * Fraction(h["by"]) for v in x]
     elif op == "shift_t":
         t = [u + Fraction(h["by"]) for u in t]
-    elif op == "move_t":
+    elif op in ("move_t", "move_end"):
         t[h["i"]] = Fraction(h["value"])
+    elif op == "scale_t":
+        t = [u * Fraction(h["by"]) for u in t]
     elif op == "assign_x":
-        x = [Fraction(v) for v in h["values"]]
+        x = [Fraction(v) * xmul for v in h["values"]]
     elif op == "modify":
         a, b = [Fraction(v) for v in h["twin"]]
         keep = [(u, v) for u, v in zip(t, x) if a <= u <= b]
         t, x = [u for u, _ in keep], [v for _, v in keep]
+    elif op == "modify_step":
+        d = Fraction(h["d"])
+        k = (t[-1] - t[0]) / d
+        assert k.denominator == 1
+        g = [t[0] + i * d for i in range(int(k) + 1)]
+        t, x = g, [exact_interp(t, x, q) for q in g]
+    elif op == "modify_req":
+        g = [Fraction(v) for v in h["at"]]
+        t, x = g, [exact_interp(t, x, q) for q in g]
     return t, x, has_ref
 
 
-def gen_history(rng, t, x, has_ref):
+def gen_history(rng, t, x, has_ref, allow_dtg=True, xmul=1):
     """0-4 steps; returns (history, series stored afterwards)"""
     h = []
     for _ in range(rng.choice([0, 1, 1, 2, 2, 3, 4])):
-        step = gen_step(rng, t, x, has_ref)
+        step = gen_step(rng, t, x, has_ref, allow_dtg)
         h.append(step)
-        t, x, has_ref = model_step(t, x, has_ref, step)
+        t, x, has_ref = model_step(t, x, has_ref, step, xmul)
     return h, t, x
 
 
@@ -236,12 +354,119 @@ def kw_of(h):
     return kw
 
 
-def apply_step(ts, h):
+def spell_array(vals, how):
+    """the same requested times in another container: ndarray / list / strided view of a larger array / integer array"""
+    vals = [float(v) for v in vals]
+    if how == "list":
+        return list(vals)
+    if how == "view":
+        big = np.zeros(2 * len(vals) + 1)
+        big[1::2] = vals
+        return big[1::2]
+    if how == "int" and all(v == int(v) for v in vals):
+        return np.array([int(v) for v in vals])
+    return np.array(vals, dtype=float)
+
+
+def spell_step(d, how):
+    d = float(d)
+    if how == "np.float64":
+        return np.float64(d)
+    if how == "np.float32":
+        return np.float32(d)
+    if how == "int" and d == int(d):
+        return int(d)
+    return d
+
+
+def spell_twin(a, b, how):
+    """the same window as tuple / list / ndarray / numpy scalars / integers"""
+    a, b = float(a), float(b)
+    if how == "list":
+        return [a, b]
+    if how == "ndarray":
+        return np.array([a, b])
+    if how == "npscalar":
+        return (np.float64(a), np.float64(b))
+    if how == "int" and all(np.isfinite(v) and v == int(v) for v in (a, b)):
+        return (int(a), int(b))
+    return (a, b)
+
+
+def do_bad(ts, what):
+    """an operation that has to be refused (window + ndarray, times outside the span, a step that is not a positive float, ...)"""
+    lo, hi = float(ts.t[0]), float(ts.t[-1])
+    if what == "req_outside":
+        ts.get(resample=np.array([lo, hi + 1.0, 0.5 * (lo + hi)]))
+    elif what == "req_outside_list":
+        ts.get(resample=[0.5 * (lo + hi), lo - 0.125])
+    elif what == "nd_twin":
+        ts.get(twin=(lo, hi), resample=np.array([lo, hi]))
+    elif what == "int_step":
+        ts.get(resample=1)
+    elif what == "zero_step":
+        ts.get(resample=0.0)
+    elif what == "neg_dt":
+        ts.resample(dt=-1.0)
+    elif what == "interp_outside":
+        ts.interpolate(np.array([lo, hi + 0.125]))
+    elif what == "resample_t_outside":
+        ts.resample(t=np.array([lo - 1.0, hi]))
+    elif what == "modify_outside":
+        ts.modify(resample=np.array([lo, 0.5 * (lo + hi), hi + 0.125]))
+    elif what == "modify_nd_twin":
+        ts.modify(twin=(lo, hi), resample=np.array([lo, hi]))
+    elif what == "twin3":
+        ts.get(twin=(lo, hi, hi))
+    elif what == "step_empty_window":
+        ts.get(twin=(hi + 1.0, hi + 2.0), resample=0.5)
+    elif what == "smooth_too_long":
+        ts.get(window_len=len(ts.t) + 2)
+    elif what == "bad_filter":
+        ts.get(filterargs=("xx", 0.1))
+
+
+def via_entry(ts, via, kw):
+    """get(**kw) through another public entry point; returns (time, data)"""
+    if via == "positional":
+        return ts.get(kw.get("twin"), kw.get("resample"), kw.get("window_len"), kw.get("filterargs"), kw.get("window", "rectangular"),
+                      kw.get("taperfrac"))
+    if via == "filter_twin":
+        fa = kw.get("filterargs") or ("tp", 0.0)
+        return ts.filter(fa[0], fa[1] if len(fa) == 2 else tuple(fa[1:]), twin=kw.get("twin"), taperfrac=kw.get("taperfrac"))
+    if via == "trace":
+        from qats.app import funcs
+        r = funcs.calculate_trace({"s": ts}, kw.get("twin"), kw.get("filterargs"))["s"]
+        return r["t"], r["x"]
+    from qats import TsDB
+    db = TsDB()
+    db.add(ts)
+    if via == "geta":
+        return db.geta(ts.name, **kw)
+    if via == "getda":
+        (tt, xx), = db.getda(names=ts.name, **kw).values()
+        return tt, xx
+    if via == "to_dataframe":
+        df = db.to_dataframe(names=ts.name, **kw)
+        return np.asarray(df.index, dtype=float), np.asarray(df.iloc[:, 0], dtype=float)
+    return ts.get(**kw)
+
+
+def apply_step(ts, h, xmul=1):
     """perform one step of a history on the real object. A refused step (e.g. a filter on a very short series, set_dtg_ref()
     without a reference) is still part of the history."""
     op = step_op(h)
+    xmul = float(xmul)
     try:
-        if op == "get":
+        if op == "bad":
+            do_bad(ts, h["what"])
+        elif op == "entry":
+            via_entry(ts, h["via"], kw_of(h.get("kw", {})))
+        elif op == "modify_step":
+            ts.modify(resample=spell_step(Fraction(h["d"]), h.get("spell", "float")))
+        elif op == "modify_req":
+            ts.modify(resample=spell_array([Fraction(v) for v in h["at"]], h.get("spell", "ndarray")))
+        elif op == "get":
             ts.get(**kw_of(h["kw"] if "op" in h else h))
         elif op == "get_edit":
             # the caller post-processes what it got back (zero-based time axis, scaled data): its own arrays, not the series
@@ -283,28 +508,64 @@ def apply_step(ts, h):
                 cur = ts.dtg_ref
                 ts.set_dtg_ref(REF0 if cur is None else cur - timedelta(seconds=float(Fraction(h["shift"]))))
         elif op == "edit_x":
-            ts.x[h["i"]] += float(Fraction(h["add"]))
+            ts.x[h["i"]] += float(Fraction(h["add"])) * xmul
         elif op == "set_x":
-            ts.x[h["i"]] = float(Fraction(h["value"]))
+            ts.x[h["i"]] = float(Fraction(h["value"])) * xmul
         elif op == "scale_x":
             ts.x *= float(Fraction(h["by"]))
         elif op == "shift_t":
             tt = ts.t
             tt += float(Fraction(h["by"]))
-        elif op == "move_t":
+        elif op in ("move_t", "move_end"):
             ts.t[h["i"]] = float(Fraction(h["value"]))
+        elif op == "scale_t":
+            tt = ts.t
+            tt *= float(Fraction(h["by"]))
         elif op == "assign_x":
-            ts.x = np.array([float(Fraction(v)) for v in h["values"]])
+            ts.x = np.array([float(Fraction(v)) * xmul for v in h["values"]])
         elif op == "modify":
             ts.modify(twin=tuple(float(Fraction(v)) for v in h["twin"]))
     except Exception:
         pass
 
 
-def make_ts(t, x, case):
+SERIES_SPELLINGS = ("float", "int", "view", "f32", "datetime", "shared")
+_SHARED = {}
+
+
+def make_ts(t, x, case, name="s"):
+    """the series under test, built from the exact samples in the spelling named by case["series"]: float arrays, integer arrays
+    (integral samples only), strided views of larger arrays, single-precision data (when exactly representable), time given as
+    datetime objects (micro-second exact times only), or two objects built from the very same source arrays ("shared")"""
     from qats import TimeSeries
     tf, xf = np.array([float(v) for v in t]), np.array([float(v) for v in x])
-    return TimeSeries("s", tf, xf, dtg_ref=REF0 if case.get("dtg_ref") else None)
+    how = case.get("series", "float")
+    ref = REF0 if case.get("dtg_ref") else None
+    if how == "int" and all(v == int(v) for v in tf) and all(v == int(v) and abs(v) < 2 ** 62 for v in xf):
+        return TimeSeries(name, np.array([int(v) for v in tf]), np.array([int(v) for v in xf]), dtg_ref=ref)
+    if how == "view":
+        bt, bx = np.zeros(2 * len(tf) + 1), np.zeros(2 * len(xf) + 1)
+        bt[1::2], bx[1::2] = tf, xf
+        return TimeSeries(name, bt[1::2], bx[1::2], dtg_ref=ref)
+    if how == "f32" and all(float(np.float32(v)) == v for v in xf):
+        return TimeSeries(name, tf, xf.astype(np.float32), dtg_ref=ref)
+    if how == "datetime" and ref is not None and all((u * 10 ** 6).denominator == 1 and abs(u) < 10 ** 6 for u in t):
+        return TimeSeries(name, np.array([REF0 + timedelta(microseconds=int(u * 10 ** 6)) for u in t]), xf, dtg_ref=REF0)
+    if how == "shared":
+        # a sibling object is built from the same source arrays first and then changed: the object under test is independent
+        other = TimeSeries("other", tf, xf, dtg_ref=ref)
+        obj = TimeSeries(name, tf, xf, dtg_ref=ref)
+        try:
+            other.x *= 3.0
+            other.t[:] = other.t + 1000.0
+            other.modify(twin=(float(other.t[0]), float(other.t[1])))
+        except Exception:
+            pass
+        _SHARED[id(obj)] = other        # kept alive
+        if len(_SHARED) > 64:
+            _SHARED.clear()
+        return obj
+    return TimeSeries(name, tf, xf, dtg_ref=ref)
 
 
 def describe(hist):
@@ -322,29 +583,73 @@ def describe(hist):
     return " (also after " + "; ".join(parts) + ")"
 
 
-def stored_clauses(ts, t, x, sfx):
-    """the clauses that only need the stored arrays (t, x as Fractions): plain get(), stored values reproduced at stored times,
-    no extrapolation just outside the stored span. Returns [(oracle, expected, observed)]."""
-    tf, xf = np.array([float(v) for v in t]), np.array([float(v) for v in x])
-    bad = []
-
-    def attempt(call):
-        try:
+def attempt(call):
+    """the result of a call on the implementation, or the name of the exception it raised (a crash is an observation)"""
+    try:
+        with np.errstate(all="ignore"):
             return call()
-        except Exception as e:
-            return type(e).__name__
+    except Exception as e:
+        return type(e).__name__
 
+
+def head(got):
+    if isinstance(got, str):
+        return got
+    try:
+        return [np.asarray(got[0], dtype=float).ravel().tolist()[:5], np.asarray(got[1], dtype=float).ravel().tolist()[:5]]
+    except Exception as e:
+        return "unreadable result (%s)" % type(e).__name__
+
+
+def same_arrays(got, tf, xf, xtol=0.0):
+    """got = (time, data) equals the expected arrays: time exactly, data exactly (xtol = 0) or to xtol relative to the data's scale"""
+    if isinstance(got, str):
+        return False
+    try:
+        gt, gx = np.asarray(got[0], dtype=float), np.asarray(got[1], dtype=float)
+    except Exception:
+        return False
+    if gt.shape != tf.shape or gx.shape != xf.shape or not np.array_equal(gt, tf):
+        return False
+    if xtol == 0.0:
+        return bool(np.array_equal(gx, xf))
+    return bool(np.allclose(gx, xf, rtol=xtol, atol=xtol * xscale(xf)))
+
+
+def noop_forms(tf):
+    """options that are given but, by their value, ask for nothing"""
+    lo, hi = float(tf[0]), float(tf[-1])
+    return [("taperfrac=0.0", dict(taperfrac=0.0)), ("window_len=1", dict(window_len=1)),
+            ("taperfrac=0, window_len=0", dict(taperfrac=0, window_len=0)),
+            ("twin=(first, last)", dict(twin=(lo, hi))), ("twin=(-inf, inf)", dict(twin=(-np.inf, np.inf))),
+            ("twin=[first - 1, last + 1e12]", dict(twin=[lo - 1.0, hi + 1e12])),
+            ("every option None", dict(twin=None, resample=None, window_len=None, filterargs=None, taperfrac=None))]
+
+
+def stored_clauses(ts, t, x, sfx):
+    """the clauses that only need the stored arrays (t, x as Fractions): plain get(), options that ask for nothing, stored values
+    reproduced at stored times, no extrapolation just outside the stored span. Returns [(oracle, expected, observed)]."""
+    tf, xf = np.array([float(v) for v in t]), np.array([float(v) for v in x])
+    atol = 1e-12 * xscale(x)
+    bad = []
+    # the derived quantities are read at every checkpoint (a value remembered here must not survive a later in-place change)
+    attempt(lambda: (ts.dt, ts.is_constant_dt, ts.duration, ts.start, ts.end, ts.n, ts.average_frequency, ts.fullname))
     got = attempt(lambda: ts.get())
     if isinstance(got, str) or not (np.array_equal(got[0], tf) and np.array_equal(got[1], xf)):
-        bad.append(("without options the stored arrays are returned" + sfx, [tf.tolist()[:5], xf.tolist()[:5]],
-                    got if isinstance(got, str) else [np.asarray(got[0]).tolist()[:5], np.asarray(got[1]).tolist()[:5]]))
+        bad.append(("without options the stored arrays are returned" + sfx, [tf.tolist()[:5], xf.tolist()[:5]], head(got)))
+    for label, kw in noop_forms(tf):
+        got = attempt(lambda: ts.get(**kw))
+        if not same_arrays(got, tf, xf, 1e-12):
+            bad.append(("options that ask for nothing (no taper, a one-sample smoothing window, a window containing every sample) "
+                        "return the stored samples" + sfx + " — %s" % label, [tf.tolist()[:5], xf.tolist()[:5]], head(got)))
+            break
     vals = attempt(lambda: ts.interpolate(tf.copy()))
-    if isinstance(vals, str) or len(vals) != len(xf) or not np.allclose(vals, xf, rtol=1e-12, atol=1e-12):
+    if isinstance(vals, str) or len(vals) != len(xf) or not np.allclose(vals, xf, rtol=1e-12, atol=atol):
         bad.append(("interpolation reproduces stored values at stored times" + sfx, xf.tolist()[:5],
                     vals if isinstance(vals, str) else np.asarray(vals).tolist()[:5]))
     got = attempt(lambda: ts.get(resample=tf.copy()))
     if isinstance(got, str) or len(got[1]) != len(xf) or not np.array_equal(got[0], tf) or \
-            not np.allclose(got[1], xf, rtol=1e-12, atol=1e-12):
+            not np.allclose(got[1], xf, rtol=1e-12, atol=atol):
         bad.append(("resampling to the stored times reproduces the stored values" + sfx, xf.tolist()[:5],
                     got if isinstance(got, str) else np.asarray(got[1]).tolist()[:5]))
     for q in (t[0] - Fraction(1, 8), t[-1] + Fraction(1, 8)):
@@ -366,64 +671,83 @@ def exact_interp(t, x, q):
 
 
 AFTER = " (also after earlier queries on the same object)"
+WIN_VIAS = ("get", "get", "positional", "geta", "getda", "to_dataframe", "trace", "max", "min", "mean", "modify")
+TWIN_SPELLINGS = ("tuple", "list", "ndarray", "npscalar", "int")
+STEP_SPELLINGS = ("float", "np.float64", "np.float32", "int")
 
 
-def direct_clauses(t, x, case):
-    """The property's clauses on the unpatched implementation for one series (Fractions) and one `case`: optional keys
-    dtg_ref / history / checkpoints / twin / qs / step / req. The history is applied to one object; with `checkpoints` the
-    stored-array clauses are evaluated on the fresh object and after every step (against the series as stored at that point);
-    twin / qs / req / step refer to the series stored after the whole history.
-    Returns (ts, t', x', [(oracle, relevant case keys, expected, observed, number of history steps needed or None = all)])
-    where (t', x') is the series stored after the history, in exact arithmetic."""
-    t_in, x_in = t, x
-    ts = make_ts(t, x, case)
-    hist = case.get("history") or []
-    has_ref = bool(case.get("dtg_ref"))
-    bad = []
-    seen = set()
-    if case.get("checkpoints", True) and hist:
-        for oracle, exp, obs in stored_clauses(ts, t, x, ""):
-            seen.add(oracle)
-            bad.append((oracle, [], exp, obs, 0))
-    for k, h in enumerate(hist):
-        apply_step(ts, h)
-        t, x, has_ref = model_step(t, x, has_ref, h)
-        if case.get("checkpoints", True) and k + 1 < len(hist):
-            for oracle, exp, obs in stored_clauses(ts, t, x, describe(hist[:k + 1])):
-                if oracle.split(" (also")[0] not in seen:       # the first step after which a clause fails
-                    seen.add(oracle.split(" (also")[0])
-                    bad.append((oracle, [], exp, obs, k + 1))
+def bound(s):
+    return float(s) if s in ("inf", "-inf") else Fraction(s)
+
+
+def window_clause(ts, t, x, w, sfx, rebuild):
+    """one window {a, b, spell, via}: exactly the samples of the closed window, through the named entry point and spelling"""
+    a, b = bound(w["a"]), bound(w["b"])
+    keep = [(float(u), float(v)) for u, v in zip(t, x) if a <= u <= b]
+    tw = spell_twin(a, b, w.get("spell", "tuple"))
+    via = w.get("via", "get")
+    label = " — %s, twin as %s" % (via, w.get("spell", "tuple"))
+    text = "a window returns exactly the samples in the closed window, unchanged and in order" + sfx
+    if via in ("max", "min", "mean"):
+        if not keep:
+            return []
+        vals = [v for _, v in keep]
+        exp = {"max": max(vals), "min": min(vals), "mean": float(sum(Fraction(v) for v in vals) / len(vals))}[via]
+        got = attempt(lambda: float(getattr(ts, via)(twin=tw)))
+        if isinstance(got, str) or abs(got - exp) > (1e-12 * max(abs(v) for v in vals) if via == "mean" else 0.0):
+            return [("the %s over a window is the %s of exactly the samples in the closed window" % (via, via) + sfx + label, exp, got)]
+        return []
+    if via == "modify":
+        if rebuild is None or len(keep) < 1:
+            return []
+        ts2 = rebuild()
+        r = attempt(lambda: ts2.modify(twin=tw))
+        got = r if isinstance(r, str) else attempt(lambda: (ts2.t, ts2.x))
+    elif via == "to_dataframe" and not keep:
+        return []
+    else:
+        got = attempt(lambda: via_entry(ts, via, dict(twin=tw)))
+    if isinstance(got, str) or not same_arrays(got, np.array([u for u, _ in keep]), np.array([v for _, v in keep])):
+        if via == "modify":
+            text = "modify(**kwargs) stores what get(**kwargs) returns: exactly the samples in the closed window" + sfx
+        return [(text + label, keep[:5], pairs(got))]
+    return []
+
+
+def pairs(got):
+    if isinstance(got, str):
+        return got
+    try:
+        return list(zip(np.asarray(got[0], dtype=float).tolist(), np.asarray(got[1], dtype=float).tolist()))[:5]
+    except Exception as e:
+        return "unreadable result (%s)" % type(e).__name__
+
+
+def option_clauses(ts, t, x, case, sfx, rebuild):
+    """the clauses that need an option (window / interpolation points / requested array / step) on object `ts` whose stored series
+    is (t, x) in exact arithmetic. Returns [(oracle, relevant case keys, expected, observed, None)]."""
     tf, xf = np.array([float(v) for v in t]), np.array([float(v) for v in x])
-    sfx = describe(hist)
-    for oracle, exp, obs in stored_clauses(ts, t, x, sfx):
-        if oracle.split(" (also")[0] not in seen:
-            bad.append((oracle, [], exp, obs, None))
-    def attempt(call):
-        try:
-            return call()
-        except Exception as e:
-            return type(e).__name__
-
-    def pairs(got):
-        return got if isinstance(got, str) else list(zip(np.asarray(got[0]).tolist(), np.asarray(got[1]).tolist()))[:5]
-
+    xs = xscale(x)
+    bad = []
     if "twin" in case:
         a, b = [Fraction(v) for v in case["twin"]]
         got = attempt(lambda: ts.get(twin=(float(a), float(b))))
         keep = [(float(u), float(v)) for u, v in zip(t, x) if a <= u <= b]
-        if isinstance(got, str) or list(zip(got[0].tolist(), got[1].tolist())) != keep:
+        if isinstance(got, str) or list(zip(np.asarray(got[0]).tolist(), np.asarray(got[1]).tolist())) != keep:
             bad.append(("a window returns exactly the samples in the closed window, unchanged and in order" + sfx, ["twin"],
                         keep[:5], pairs(got), None))
-        else:
+        elif rebuild is not None:
             # modify == get (second object with the same history)
             tw, xw = got
-            ts2 = make_ts(t_in, x_in, case)
-            for h in hist:
-                apply_step(ts2, h)
+            ts2 = rebuild()
             r = attempt(lambda: ts2.modify(twin=(float(a), float(b))))
             if isinstance(r, str) or not (np.array_equal(ts2.t, tw) and np.array_equal(ts2.x, xw)):
                 bad.append(("modify(**kwargs) stores what get(**kwargs) returns", ["twin"], [tw.tolist()[:5], xw.tolist()[:5]],
                             r if isinstance(r, str) else [np.asarray(ts2.t).tolist()[:5], np.asarray(ts2.x).tolist()[:5]], None))
+    # windows in other spellings, on the boundary, through the other entry points
+    for w in case.get("wins", []):
+        for oracle, exp, obs in window_clause(ts, t, x, w, sfx, rebuild):
+            bad.append((oracle, ["wins"], exp, obs, None))
     # interpolation is linear between the nodes, raises outside
     for qs in case.get("qs", []):
         q = Fraction(qs)
@@ -432,20 +756,43 @@ def direct_clauses(t, x, case):
         if exp is None:
             if got != "ValueError":
                 bad.append(("outside the stored span interpolation raises instead of extrapolating" + sfx, ["qs"], "ValueError", got, None))
-        elif isinstance(got, str) or abs(got - float(exp)) > 1e-11 * max(1.0, abs(float(exp))):
+        elif isinstance(got, str) or abs(got - float(exp)) > 1e-11 * max(xs, abs(float(exp))):
             bad.append(("between two stored samples the value is their linear interpolation" + sfx, ["qs"], float(exp), got, None))
-    # requested time arrays (sorted or not, ndarray or list), through interpolate() and get(resample=...)
+        if exp is not None:
+            # the same point as a scalar, in a list, in a tuple
+            for label, call in (("interpolate(float)", lambda: float(ts.interpolate(float(q)))),
+                                ("interpolate(list)", lambda: float(ts.interpolate([float(q)])[0])),
+                                ("interpolate(tuple)", lambda: float(ts.interpolate((float(q),))[0]))):
+                got = attempt(call)
+                if isinstance(got, str) or abs(got - float(exp)) > 1e-11 * max(xs, abs(float(exp))):
+                    bad.append(("between two stored samples the value is their linear interpolation" + sfx + " — %s" % label, ["qs"],
+                                float(exp), got, None))
+                    break
+    # requested time arrays (sorted or not, ndarray / list / view / integers), through interpolate(), get(resample=...) and the
+    # other entry points; the same ndarray object is handed to several calls
     if "req" in case:
         req = [Fraction(v) for v in case["req"]]
         reqf = [float(v) for v in req]
         exp = [exact_interp(t, x, q) for q in req]
         outside = [str(q) for q, e in zip(req, exp) if e is None]
+        shared = np.array(reqf)
         forms = [("interpolate(ndarray)", lambda: (reqf, ts.interpolate(np.array(reqf)))),
                  ("get(resample=ndarray)", lambda: ts.get(resample=np.array(reqf))),
-                 ("get(resample=list)", lambda: ts.get(resample=list(reqf)))]
+                 ("get(resample=list)", lambda: ts.get(resample=list(reqf))),
+                 ("get(resample=the same ndarray again)", lambda: ts.get(resample=shared)),
+                 ("get(None, ndarray) positional", lambda: ts.get(None, shared)),
+                 ("get(resample=strided view)", lambda: ts.get(resample=spell_array(reqf, "view"))),
+                 ("interpolate(list)", lambda: (reqf, ts.interpolate(list(reqf)))),
+                 ("TsDB.geta(resample=ndarray)", lambda: via_entry(ts, "geta", dict(resample=shared))),
+                 ("TsDB.getda(resample=list)", lambda: via_entry(ts, "getda", dict(resample=list(reqf)))),
+                 ("resample(t=ndarray)", lambda: (reqf, ts.resample(t=shared))),
+                 ("get(resample=the same ndarray a third time)", lambda: ts.get(resample=shared))]
+        if all(v == int(v) for v in reqf):
+            forms.append(("get(resample=integer ndarray)", lambda: ts.get(resample=spell_array(reqf, "int"))))
         for label, call in forms:
             try:
-                tt, xx = call()
+                with np.errstate(all="ignore"):
+                    tt, xx = call()
                 got = [np.asarray(tt, dtype=float).tolist(), np.asarray(xx, dtype=float).tolist()]
             except Exception as e:
                 got = type(e).__name__
@@ -457,39 +804,107 @@ def direct_clauses(t, x, case):
                 continue
             expf = [float(e) for e in exp]
             if isinstance(got, str) or len(got[0]) != len(got[1]) or got[0] != reqf or len(got[1]) != len(expf) or \
-                    not np.allclose(got[1], expf, rtol=1e-11, atol=1e-11):
+                    not np.allclose(got[1], expf, rtol=1e-11, atol=1e-11 * xs):
                 bad.append(("resampling to a given array returns the linear interpolation of the stored samples on exactly that grid"
                             + sfx + " — %s" % label, ["req"], [reqf[:8], expf[:8]],
                             got if isinstance(got, str) else [got[0][:8], got[1][:8]], None))
+        if shared.tolist() != reqf:
+            bad.append(("resampling to a given array returns the linear interpolation of the stored samples on exactly that grid"
+                        + sfx + " — the caller's array after the calls", ["req"], reqf[:8], shared.tolist()[:8], None))
     # resample to a step: grid from first to last sample with the spacing closest to the request
     if "step" in case:
-        d = Fraction(case["step"])
-        got = attempt(lambda: ts.get(resample=float(d)))
+        how = case.get("step_spell", "float")
+        dval = spell_step(Fraction(case["step"]), how)
+        d = Fraction(float(dval))                   # the step as the implementation receives it (single precision rounds it)
+        got = attempt(lambda: ts.get(resample=dval))
         ratio = (t[-1] - t[0]) / d
-        if isinstance(got, str):
+        lab = "" if how == "float" else " — step as %s" % how
+        if isinstance(dval, int) and got == "TypeError":
+            pass                                    # an integer step is refused as documented (float expected)
+        elif isinstance(got, str):
             bad.append(("resampling to a step gives an equidistant grid from the first to the last sample whose spacing is the one closest "
-                        "to the request" + sfx, ["step"], "k=%s" % round(ratio), got, None))
+                        "to the request" + sfx + lab, ["step", "step_spell"], "k=%s" % round(ratio), got, None))
         else:
-            tr, xr = got
+            tr, xr = np.asarray(got[0], dtype=float), np.asarray(got[1], dtype=float)
             k = len(tr) - 1
-            if not (k >= 1 and tr[0] == tf[0] and tr[-1] == tf[-1] and abs(Fraction(k) - ratio) <= Fraction(1, 2) + Fraction(1, 10 ** 9) and
-                    np.allclose(np.diff(tr), float(t[-1] - t[0]) / k, rtol=1e-12)):
+            big = max(abs(tf[0]), abs(tf[-1]))
+            gtol = 8 * float(np.spacing(big)) if big > BIG_T else 0.0      # on a large offset the grid points are rounded to ulp(|t|)
+            if len(t) >= 2 and k == 0 and ratio < Fraction(1, 2) + Fraction(1, 10 ** 9):
+                ok = tr[0] == tf[0]                 # a step of more than twice the duration: the grid degenerates to the first sample
+            else:
+                ok = (k >= 1 and tr[0] == tf[0] and tr[-1] == tf[-1] and abs(Fraction(k) - ratio) <= Fraction(1, 2) + Fraction(1, 10 ** 9) and
+                      np.allclose(np.diff(tr), float(t[-1] - t[0]) / k, rtol=1e-12, atol=gtol))
+            if not ok:
                 bad.append(("resampling to a step gives an equidistant grid from the first to the last sample whose spacing is the one "
-                            "closest to the request" + sfx, ["step"], "k=%s" % round(ratio), tr.tolist()[:6], None))
+                            "closest to the request" + sfx + lab, ["step", "step_spell"], "k=%s" % round(ratio), tr.tolist()[:6], None))
             elif len(tr) != len(xr):
-                bad.append(("time and data have equal length", ["step"], len(tr), len(xr), None))
+                bad.append(("time and data have equal length", ["step", "step_spell"], len(tr), len(xr), None))
             else:
                 # the grid values are the linear interpolation of the stored samples (grid points are floats: compare at the float grid)
                 expv = [exact_interp(t, x, min(max(Fraction(float(u)), t[0]), t[-1])) for u in tr]
-                if not np.allclose(xr, [float(e) for e in expv], rtol=1e-10, atol=1e-10):
-                    bad.append(("resampling returns the linear interpolation of the stored samples on the requested grid" + sfx, ["step"],
-                                [float(e) for e in expv][:6], np.asarray(xr).tolist()[:6], None))
+                if not np.allclose(xr, [float(e) for e in expv], rtol=1e-10, atol=1e-10 * xs):
+                    bad.append(("resampling returns the linear interpolation of the stored samples on the requested grid" + sfx + lab,
+                                ["step", "step_spell"], [float(e) for e in expv][:6], np.asarray(xr).tolist()[:6], None))
     # the queries above did not change what a plain query returns
     got = attempt(lambda: ts.get())
     if isinstance(got, str) or not (np.array_equal(got[0], tf) and np.array_equal(got[1], xf)):
-        bad.append(("without options the stored arrays are returned" + AFTER, [k for k in ("twin", "qs", "req", "step") if k in case],
-                    [tf.tolist()[:5], xf.tolist()[:5]],
-                    got if isinstance(got, str) else [np.asarray(got[0]).tolist()[:5], np.asarray(got[1]).tolist()[:5]], None))
+        bad.append(("without options the stored arrays are returned" + AFTER, [k for k in ("twin", "wins", "qs", "req", "step", "step_spell") if k in case],
+                    [tf.tolist()[:5], xf.tolist()[:5]], head(got), None))
+    return bad
+
+
+SIBLING = " — on a second series with the same time axis, the two objects being queried alternately with the same options"
+
+
+def direct_clauses(t, x, case):
+    """The property's clauses on the unpatched implementation for one series (Fractions) and one `case`: optional keys
+    series / xpow / dtg_ref / history / checkpoints / sibling / twin / wins / qs / step / step_spell / req. The history is applied to
+    one object; with `checkpoints` the stored-array clauses are evaluated on the fresh object and after every step (against the
+    series as stored at that point); twin / wins / qs / req / step refer to the series stored after the whole history. With
+    `sibling` a second series (same times, other data) is asked the same questions first.
+    Returns (ts, t', x', [(oracle, relevant case keys, expected, observed, number of history steps needed or None = all)])
+    where (t', x') is the series stored after the history, in exact arithmetic."""
+    t_in, x_in = t, x
+    xmul = Fraction(2) ** int(case.get("xpow", 0))
+    ts = make_ts(t, x, case)
+    hist = case.get("history") or []
+    has_ref = bool(case.get("dtg_ref"))
+    bad = []
+    seen = set()
+    if case.get("checkpoints", True) and hist:
+        for oracle, exp, obs in stored_clauses(ts, t, x, ""):
+            seen.add(oracle.split(" — ")[0])
+            bad.append((oracle, [], exp, obs, 0))
+    for k, h in enumerate(hist):
+        apply_step(ts, h, xmul)
+        t, x, has_ref = model_step(t, x, has_ref, h, xmul)
+        if case.get("checkpoints", True) and k + 1 < len(hist):
+            for oracle, exp, obs in stored_clauses(ts, t, x, describe(hist[:k + 1])):
+                key = oracle.split(" (also")[0].split(" — ")[0]
+                if key not in seen:       # the first step after which a clause fails
+                    seen.add(key)
+                    bad.append((oracle, [], exp, obs, k + 1))
+    sfx = describe(hist)
+    for oracle, exp, obs in stored_clauses(ts, t, x, sfx):
+        if oracle.split(" (also")[0].split(" — ")[0] not in seen:
+            bad.append((oracle, [], exp, obs, None))
+
+    def rebuild():
+        ts2 = make_ts(t_in, x_in, case)
+        for h in hist:
+            apply_step(ts2, h, xmul)
+        return ts2
+
+    if case.get("sibling"):
+        xb = [xmul - v for v in x]
+        plain = {k: v for k, v in case.items() if k not in ("history", "series")}
+        tsb = make_ts(t, xb, plain, name="b")
+        for oracle, keys, exp, obs, _ in option_clauses(tsb, t, xb, case, SIBLING, lambda: make_ts(t, xb, plain, name="b")):
+            bad.append((oracle, keys + ["sibling"], exp, obs, None))
+    bad += option_clauses(ts, t, x, case, sfx + (SIBLING if case.get("sibling") else ""), rebuild)
+    if case.get("sibling"):
+        for oracle, exp, obs in stored_clauses(tsb, t, xb, SIBLING):
+            bad.append((oracle, ["sibling"], exp, obs, None))
     return ts, t, x, bad
 
 
@@ -501,6 +916,11 @@ def gen_opts(rng, t):
         a = rng.choice([lo, t[len(t) // 3], lo - 1, lo + (hi - lo) * Fraction(rng.randint(0, 8), 8)])
         b = rng.choice([hi, t[-2], hi + 1, a + (hi - a) * Fraction(rng.randint(0, 8), 8)])
         o["twin"] = (a, b)
+    elif k < 0.57:
+        # on the boundary: a single instant, one ulp beside a sample, reversed limits
+        u = t[rng.randrange(len(t))]
+        up, dn = Fraction(float(np.nextafter(float(u), np.inf))), Fraction(float(np.nextafter(float(u), -np.inf)))
+        o["twin"] = rng.choice([(u, u), (up, hi), (lo, dn), (dn, up), (u, lo - 1), (up, up), (lo, u)])
     k = rng.random()
     if k < 0.3:
         o["resample"] = ("step", (hi - lo) * Fraction(1, rng.choice([1, 2, 3, 4, 5, 7, 8])) * rng.choice([Fraction(1), Fraction(3, 2), Fraction(1, 2)]))
@@ -523,18 +943,42 @@ def opts_line(o):
     return "twin=%s res=%s taper=%d filter=%d smooth=%d" % (tw, rs, o["taper"], o["filter"], o["smooth"])
 
 
-def impl_get(ts, o, rng=None, ftype="lp"):
+FARGS = {"lp": ("lp", 0.01), "hp": ("hp", 0.02), "bp": ("bp", 0.01, 0.02), "bs": ("bs", 0.01, 0.02)}
+SPELL_DEFAULT = dict(twin="tuple", step="float", arr="ndarray", fargs="tuple", call="kw", series="float", taperfrac=0.1, window_len=3, window="rectangular")
+SPELL_POOL = dict(twin=TWIN_SPELLINGS, step=("float", "np.float64", "np.float32"), arr=("ndarray", "list", "view", "int"),
+                  fargs=("tuple", "list"), call=("kw", "positional", "filter()", "geta", "getda", "modify"),
+                  series=("float", "int", "view", "f32"), taperfrac=(0.1, 0.25, 0.001, 0.5), window_len=(3, 5, 1, 2),
+                  window=("rectangular", "hanning", "blackman"))
+LIST_WIN = ("a requested time array together with a window is refused (the two cannot be combined), however the array is spelled "
+            "(list like ndarray) — otherwise samples outside the window are returned")
+
+
+def gen_spell(rng):
+    """how the same request is written: only the entries that differ from the canonical spelling"""
+    sp = {}
+    for k in sorted(SPELL_POOL):
+        if rng.random() < 0.4:
+            v = rng.choice(SPELL_POOL[k])
+            if v != SPELL_DEFAULT[k]:
+                sp[k] = v
+    return sp
+
+
+def impl_get(ts, o, rng=None, ftype="lp", spell=None):
+    sp = dict(SPELL_DEFAULT, **(spell or {}))
     kw = {}
     if o["twin"] is not None:
-        kw["twin"] = (float(o["twin"][0]), float(o["twin"][1]))
+        kw["twin"] = spell_twin(o["twin"][0], o["twin"][1], sp["twin"])
     if o["resample"] is not None:
-        kw["resample"] = float(o["resample"][1]) if o["resample"][0] == "step" else np.array([float(v) for v in o["resample"][1]])
+        kw["resample"] = spell_step(o["resample"][1], sp["step"]) if o["resample"][0] == "step" else spell_array(o["resample"][1], sp["arr"])
     if o["taper"]:
-        kw["taperfrac"] = 0.1
+        kw["taperfrac"] = sp["taperfrac"]
     if o["filter"]:
-        kw["filterargs"] = {"lp": ("lp", 0.01), "hp": ("hp", 0.02), "bp": ("bp", 0.01, 0.02), "bs": ("bs", 0.01, 0.02)}[ftype]
+        kw["filterargs"] = list(FARGS[ftype]) if sp["fargs"] == "list" else FARGS[ftype]
     if o["smooth"]:
-        kw["window_len"] = 3
+        kw["window_len"] = sp["window_len"]
+        if sp["window"] != "rectangular":
+            kw["window"] = sp["window"]
     return kw
 
 
@@ -570,38 +1014,79 @@ def opts_unjson(j):
     return o
 
 
-def tagged_clauses(t, x, o, ftype):
-    """get(**options) with the tag stage functions, issued twice on the same object, then a plain get().
+def tagged_call(ts, o, kw, ftype, call, fresh):
+    """issue the request in the named way; `fresh` builds a new object with the same samples (modify changes its object)"""
+    if call == "filter()" and o["filter"] and o["resample"] is None and not o["smooth"]:
+        fa = kw["filterargs"]
+        freq = fa[1] if len(fa) == 2 else (list(fa[1:]) if isinstance(fa, list) else tuple(fa[1:]))
+        return ts.filter(fa[0], freq, twin=kw.get("twin"), taperfrac=kw.get("taperfrac"))
+    if call == "modify" and fresh is not None:
+        obj = fresh()
+        obj.modify(**kw)
+        return obj.t, obj.x
+    if call in ("positional", "geta", "getda"):
+        return via_entry(ts, call, kw)
+    return ts.get(**kw)
+
+
+def tagged_clauses(t, x, o, ftype, spell=None, ts=None):
+    """get(**options) with the tag stage functions, issued twice on the same object (a new one built from (t, x), or the given
+    object `ts` that stores (t, x) after a history), then a plain get(). The request is written as `spell` says.
     Returns (first result, second result, [(oracle, expected, observed)])."""
-    from qats import TimeSeries
     tf, xf = np.array([float(v) for v in t]), np.array([float(v) for v in x])
-    ts = TimeSeries("s", tf.copy(), xf.copy())
-    kw = impl_get(ts, o, ftype=ftype)
+    sp = dict(SPELL_DEFAULT, **(spell or {}))
+    fresh = None
+    if ts is None:
+        fresh = lambda: make_ts(t, x, {"series": sp["series"]})
+        ts = fresh()
     res, allcalls = [], []
     with Tags() as tg:
         for _ in range(2):
             del tg.calls[:]
             try:
-                tt, xx = ts.get(**kw)
+                with np.errstate(all="ignore"):
+                    kw = impl_get(ts, o, ftype=ftype, spell=spell)      # new containers for every call
+                    tt, xx = tagged_call(ts, o, kw, ftype, sp["call"], fresh)
                 res.append(("ok", np.asarray(tt, dtype=float), np.asarray(xx, dtype=float)))
             except Exception as e:
                 res.append((canon_err(e),))
             allcalls.append(list(tg.calls))
     bad = []
-    t0, x0 = ts.get()
-    if not (np.array_equal(t0, tf) and np.array_equal(x0, xf)):
-        bad.append(("without options the stored arrays are returned" + AFTER, [tf.tolist()[:5], xf.tolist()[:5]],
-                    [np.asarray(t0).tolist()[:5], np.asarray(x0).tolist()[:5]]))
+    got = attempt(lambda: ts.get())
+    if isinstance(got, str) or not (np.array_equal(got[0], tf) and np.array_equal(got[1], xf)):
+        bad.append(("without options the stored arrays are returned" + AFTER, [tf.tolist()[:5], xf.tolist()[:5]], head(got)))
     if o["resample"] is not None and o["resample"][0] == "arr" and o["twin"] is None:
         outside = [str(q) for q in o["resample"][1] if q < t[0] or q > t[-1]]
         if outside and res[0][0] == "ok":
             bad.append(("resampling to a given array raises instead of extrapolating when a requested time (at any position of the "
                         "array) is outside the stored span", "an exception (outside: %s)" % ", ".join(outside[:3]), res[0][2].tolist()[:8]))
+    if o["resample"] is not None and o["resample"][0] == "arr" and o["twin"] is not None:
+        for im in res:
+            if im[0] == "ok":
+                bad.append((LIST_WIN, "an exception, as for resample=ndarray", [im[1].tolist()[:6], im[2].tolist()[:6]]))
+                break
+    tw = [u for u in t if o["twin"] is None or o["twin"][0] <= u <= o["twin"][1]]
     for im, calls in zip(res, allcalls):
         if im[0] != "ok":
             continue
         if len(im[1]) != len(im[2]):
             bad.append(("time and data have equal length", len(im[1]), len(im[2])))
+        if o["filter"] and o["resample"] is None and len(t) >= 2 and len(tw) >= 2:
+            # the time axis the filter works on: the series' own (uniform sampling), else an equidistant grid over the retained span
+            # whose spacing is the one closest to the average step of the series as it is stored now
+            gaps = set(t[i + 1] - t[i] for i in range(len(t) - 1))
+            if len(gaps) == 1:
+                if not np.array_equal(im[1], np.array([float(u) for u in tw])):
+                    bad.append(("a uniformly sampled series is filtered on its own time axis (no resampling was requested)",
+                                [float(u) for u in tw][:6], im[1].tolist()[:6]))
+            elif max(gaps) > min(gaps) * Fraction(11, 10):
+                k = len(im[1]) - 1
+                ratio = (tw[-1] - tw[0]) / ((t[-1] - t[0]) / (len(t) - 1))
+                if not (k >= 1 and im[1][0] == float(tw[0]) and im[1][-1] == float(tw[-1]) and abs(Fraction(k) - ratio) <= Fraction(1, 2) + Fraction(1, 10 ** 9)
+                        and np.allclose(np.diff(im[1]), float(tw[-1] - tw[0]) / k, rtol=1e-12)):
+                    bad.append(("a non-uniformly sampled series is put on an equidistant grid from the first to the last retained sample, with the "
+                                "spacing closest to its average step, before it is filtered", "k=%s from %s to %s" % (round(ratio), tw[0], tw[-1]),
+                                im[1].tolist()[:6]))
         names = [c[0] for c in calls]
         if [ORDER[n] for n in names] != sorted(ORDER[n] for n in names) or len(names) != o["taper"] + o["filter"] + o["smooth"]:
             bad.append(("stages applied in the order taper, filter, smooth, each once iff requested",
@@ -610,24 +1095,79 @@ def tagged_clauses(t, x, o, ftype):
             if c[0] in ("lowpass", "highpass", "bandpass", "bandblock") and len(im[1]) >= 2:
                 if abs(c[1] - (im[1][1] - im[1][0])) > 1e-12 * max(1.0, abs(c[1])):
                     bad.append(("the filter sees the sampling interval of the series it is applied to", float(im[1][1] - im[1][0]), c[1]))
+            # every stage gets the parameters of its own option
+            if c[0] in ("lowpass", "highpass", "bandpass", "bandblock"):
+                want = (FARGS[ftype][0], [float(v) for v in FARGS[ftype][1:]])
+                have = ({"lowpass": "lp", "highpass": "hp", "bandpass": "bp", "bandblock": "bs"}[c[0]], c[2])
+                if want != have:
+                    bad.append(("the filter stage is the requested filter with the requested frequencies", list(want), list(have)))
+            elif c[0] == "taper" and c[1] is not None and float(c[1]) != float(sp["taperfrac"]):
+                bad.append(("the taper stage gets the requested taper fraction", sp["taperfrac"], c[1]))
+            elif c[0] == "smooth" and ((c[1] is not None and c[1] != sp["window_len"]) or (c[2] is not None and c[2] != sp["window"])):
+                bad.append(("the smoothing stage gets the requested window length and window function", [sp["window_len"], sp["window"]],
+                            [c[1], c[2]]))
     return res[0], res[1], bad
 
 
-CASE_KEYS = ("dtg_ref", "history", "checkpoints", "twin", "qs", "req", "step")
+CASE_KEYS = ("series", "xpow", "dtg_ref", "history", "checkpoints", "sibling", "twin", "wins", "qs", "req", "step", "step_spell")
 
 
-def gen_case(rng, t, x):
+def gen_wins(rng, t):
+    """windows on the boundary (a sample time itself, one ulp beside it, a single instant, reversed, unbounded, everything, nothing)
+    in every spelling and through every entry point"""
+    n = len(t)
+    out = []
+    for _ in range(rng.choice([1, 2, 3])):
+        i, j = sorted([rng.randrange(n), rng.randrange(n)])
+        up = lambda u: Fraction(float(np.nextafter(float(u), np.inf)))
+        dn = lambda u: Fraction(float(np.nextafter(float(u), -np.inf)))
+        k = rng.random()
+        if k < 0.2:
+            a, b = t[i], t[j]                               # both limits are sample times
+        elif k < 0.4:
+            a, b = rng.choice([up, dn, lambda u: u])(t[i]), rng.choice([up, dn, lambda u: u])(t[j])
+        elif k < 0.5:
+            a = b = t[i]                                    # a single instant that is a sample
+        elif k < 0.58:
+            a = b = t[i] + (t[min(i + 1, n - 1)] - t[i]) / 2  # ... that is no sample (or the last one)
+        elif k < 0.66:
+            a, b = t[j] + Fraction(1, 16), t[i] - Fraction(1, 16)   # reversed: nothing
+        elif k < 0.8:
+            a, b = rng.choice(["-inf", t[i]]), rng.choice(["inf", t[j]])
+        elif k < 0.9:
+            a, b = t[0], t[-1]
+        else:
+            a, b = t[i] - Fraction(rng.randint(0, 3), 16), t[j] + Fraction(rng.randint(0, 3), 16)
+        out.append({"a": str(a), "b": str(b), "spell": rng.choice(TWIN_SPELLINGS), "via": rng.choice(WIN_VIAS)})
+    return out
+
+
+def gen_case(rng, t, x, xpow=0):
     """history on the object first; window / interpolation points / requested array / step are then drawn relative to the series
     as stored after the history"""
     case = {}
-    if rng.random() < 0.5:
+    xmul = Fraction(2) ** xpow
+    if xpow:
+        case["xpow"] = xpow
+    big = max(abs(t[0]), abs(t[-1])) > BIG_T
+    if rng.random() < 0.5 and not big:
         case["dtg_ref"] = True
-    hist, t, x = gen_history(rng, t, x, bool(case.get("dtg_ref")))
-    if hist:
-        case["history"] = hist
-        case["checkpoints"] = rng.random() < 0.75
+    if rng.random() < 0.35:
+        # only spellings that can represent this series exactly (make_ts would silently fall back to float arrays otherwise)
+        ok = ["view", "shared"]
+        if all(v.denominator == 1 for v in t) and all(v.denominator == 1 and abs(v) < 2 ** 62 for v in x):
+            ok += ["int", "int", "int"]
+        if all(float(np.float32(float(v))) == float(v) for v in x):
+            ok += ["f32"]
+        if case.get("dtg_ref") and all((u * 10 ** 6).denominator == 1 for u in t):
+            ok += ["datetime"]
+        case["series"] = rng.choice(ok)
+    hist, t, x = gen_history(rng, t, x, bool(case.get("dtg_ref")), allow_dtg=not big, xmul=xmul)
+    if rng.random() < 0.2:
+        case["sibling"] = True
     a, b = sorted([t[rng.randrange(len(t))] + Fraction(rng.randint(-1, 1), 16), t[rng.randrange(len(t))] + Fraction(rng.randint(-1, 1), 16)])
     case["twin"] = [str(a), str(b)]
+    case["wins"] = gen_wins(rng, t)
     i = rng.randrange(len(t) - 1)
     q = t[i] + Fraction(rng.randint(0, 8), 8) * (t[i + 1] - t[i])
     case["qs"] = [str(q), str(t[0] - Fraction(1, 8)), str(t[-1] + Fraction(1, 8))]
@@ -636,13 +1176,33 @@ def gen_case(rng, t, x):
     if (2 * (t[-1] - t[0]) / d).denominator == 1 and (2 * (t[-1] - t[0]) / d).numerator % 2 == 1:
         d = d * Fraction(9, 8)     # no exact rounding ties (float division of a non-dyadic step)
     case["step"] = str(d)
+    if rng.random() < 0.4:
+        case["step_spell"] = rng.choice(STEP_SPELLINGS[1:])
+    # the same key argument with another setting, earlier on the same object (a result remembered under the window / step / array
+    # alone would come back now)
+    if rng.random() < 0.35:
+        k = rng.random()
+        if k < 0.4:
+            kw = {"twin": [float(a), float(b)]}
+        elif k < 0.7:
+            kw = {"resample": float(d)}
+        else:
+            kw = {"resample": [float(Fraction(v)) for v in case["req"]]}
+        kw.update(rng.choice([{"taperfrac": 0.25}, {"window_len": 3}, {"filterargs": ["hp", 0.05]}, {"taperfrac": 0.5, "window_len": 5},
+                              {"filterargs": ["tp", 1.0]}]))
+        hist = list(hist)
+        hist.insert(rng.randint(0, len(hist)), {"op": rng.choice(["get", "get", "get_edit", "mean", "entry"]), "kw": kw, "via": rng.choice(ENTRIES)})
+    if hist:
+        case["history"] = hist
+        case["checkpoints"] = rng.random() < 0.75
     return case
 
 
 def fail_input(inp, case, keys, nsteps=None):
     j = dict(inp)
-    if case.get("dtg_ref"):
-        j["dtg_ref"] = True
+    for k in ("series", "xpow", "dtg_ref"):
+        if case.get(k):
+            j[k] = case[k]
     hist = case.get("history") or []
     if nsteps is not None:
         hist = hist[:nsteps]
@@ -650,69 +1210,188 @@ def fail_input(inp, case, keys, nsteps=None):
         j["history"] = hist
         j["checkpoints"] = bool(case.get("checkpoints", True))
     for k in keys:
-        j[k] = case[k]
+        if k in case:
+            j[k] = case[k]
     return j
 
 
-def run(chk):
+def avoid_tie(o, t):
+    """the number of grid points is round((t1-t0)/d): an exact tie (x.5) in rational arithmetic may fall on either side in floating
+    point when d is not exactly representable — keep ties out of the exact correspondence"""
+    if o["resample"] is not None and o["resample"][0] == "step":
+        tw = [u for u in t if o["twin"] is None or o["twin"][0] <= u <= o["twin"][1]]
+        if len(tw) >= 2:
+            ratio = (tw[-1] - tw[0]) / o["resample"][1]
+            if (2 * ratio).denominator == 1 and (2 * ratio).numerator % 2 == 1:
+                o["resample"] = ("step", o["resample"][1] * Fraction(9, 8))
+    elif o["resample"] is None and o["filter"] and o["twin"] is not None and len(t) >= 2:
+        # the same tie in the automatic resampling of a non-uniform series before filtering (step = average step, not dyadic)
+        tw = [u for u in t if o["twin"][0] <= u <= o["twin"][1]]
+        if len(tw) >= 2:
+            ratio = (tw[-1] - tw[0]) / ((t[-1] - t[0]) / (len(t) - 1))
+            if (2 * ratio).denominator == 1 and (2 * ratio).numerator % 2 == 1:
+                o["twin"] = None
+    return o
+
+
+def compare_get(chk, inp, out, im1, im2, bad, stream="pl.get"):
+    """oracles + model-vs-implementation comparison of one tagged request (first call and the same call repeated)"""
+    listwin = False
+    for oracle, exp, obs in bad:
+        if oracle == LIST_WIN:
+            listwin = True
+            chk.fail(oracle, inp, exp, obs, clause="list_with_window")
+        else:
+            chk.fail(oracle, inp, exp, obs)
+    for nth, im in ((stream, im1), (stream + " (same call repeated)", im2)):
+        if out.startswith("err") or im[0] != "ok":
+            if out.strip() != im[0] and not (listwin and out.strip() == "err assertion"):
+                # window empty + step resample: numpy raises IndexError — model `err index`
+                chk.disagree(nth, inp, out, im[0])
+            continue
+        mt, mx = [[float(Fraction(v)) for v in part.split()] for part in out[3:].split("|")]
+        ok = len(mt) == len(im[1]) and len(mx) == len(im[2]) and np.allclose(mt, im[1], rtol=1e-12, atol=1e-12) and \
+            np.allclose(mx, im[2], rtol=1e-11, atol=1e-11)
+        if not ok:
+            chk.disagree(nth, inp, [mt[:6], mx[:6]], [im[1][:6].tolist(), im[2][:6].tolist()])
+
+
+def is_list_with_window(f):
+    """known-finding shape: get(twin=..., resample=<list>) is not refused (only the ndarray spelling is)"""
+    return f.get("clause") == "list_with_window"
+
+
+def is_modify_list(f):
+    """known-finding shape: after modify(resample=<list>) the stored time array is a Python list"""
+    hist = (f.get("input") or {}).get("history") or []
+    return any(step_op(h) == "modify_req" and h.get("spell") == "list" for h in hist if isinstance(h, dict))
+
+
+def float_case(inp):
+    """stand-alone resampling and step resampling on decimal (float) grids: inp = start, dt0, n, dt (+ optional dt_spell).
+    The series is its own time axis (x = t), so the values returned by resample() are the new times.
+    Returns [(oracle, expected, observed)]."""
     from qats import TimeSeries
+    t = inp["start"] + inp["dt0"] * np.arange(inp["n"])
+    d = spell_step(inp["dt"], inp.get("dt_spell", "float"))
+    dd = float(d)
+    bad = []
+    try:
+        ts = TimeSeries("s", t, np.sin(t))
+        ti = TimeSeries("i", t, t.copy())
+    except Exception as e:
+        return [("a series on a decimal time grid can be built", "a series", type(e).__name__ + ": " + str(e)[:80])]
+    span = t[-1] - t[0]
+    try:
+        r = ts.resample(dt=d)
+    except Exception as e:
+        return [("stand-alone resampling of the full duration to a positive step not exceeding it succeeds (float grids)",
+                 "values", type(e).__name__ + ": " + str(e)[:80])]
+    tn = np.arange(t[0], t[-1], step=dd)
+    if len(r) < len(tn) - 1 or len(r) < 1:
+        bad.append(("all new times inside the original span are kept", len(tn), len(r)))
+    # the new times themselves (identity signal), against a reference that shares no code with the implementation
+    tol = 8 * float(np.spacing(max(abs(t[0]), abs(t[-1])))) + 1e-12 * dd
+    rt = attempt(lambda: np.asarray(ti.resample(dt=d), dtype=float))
+    if isinstance(rt, str):
+        bad.append(("stand-alone resampling of the full duration to a positive step not exceeding it succeeds (float grids)", "values", rt))
+    else:
+        # start + i*dt < end for all i <= kmin (with a margin: every step of the grid may be rounded by ulp(|t|))
+        kmin = int(np.floor((span - tol - (span / dd + 8) * float(np.spacing(max(abs(t[0]), abs(t[-1]))))) / dd - 1e-9))
+        ref = t[0] + dd * np.arange(len(rt))
+        if len(rt) != len(r):
+            bad.append(("stand-alone resampling returns one value per new time, whatever the data", len(r), len(rt)))
+        elif len(rt) < kmin + 1 or len(rt) > int(np.ceil(span / dd + 1e-9)) + 1:
+            bad.append(("stand-alone resampling covers the span: new times start, start + dt, ... as long as they are inside", kmin + 1, len(rt)))
+        elif np.any(rt < t[0] - tol) or np.any(rt > t[-1] + tol):
+            bad.append(("all new times are inside the original span", [float(t[0]), float(t[-1])], [float(rt.min()), float(rt.max())]))
+        elif not np.allclose(rt, np.minimum(ref, t[-1]), rtol=0.0, atol=(len(rt) + 8) * float(np.spacing(max(abs(t[0]), abs(t[-1])))) + 1e-9 * dd):
+            bad.append(("the new times are start + i*dt", ref[:5].tolist(), rt[:5].tolist()))
+        else:
+            # reference at the observed new times (they are only accurate to ulp(|t|): the slope of the signal is at most 1)
+            exp = np.interp(np.clip(rt, t[0], t[-1]), t, np.sin(t))
+            if not np.allclose(r, exp, rtol=1e-9, atol=1e-9 + tol):
+                bad.append(("stand-alone resampling returns the linear interpolation of the stored samples at the new times",
+                            exp[:5].tolist(), np.asarray(r)[:5].tolist()))
+    # get(resample=step) on the same decimal grid: never raises, ends on the stored ends, values are the interpolation
+    got = attempt(lambda: ts.get(resample=d))
+    if isinstance(got, str):
+        bad.append(("resampling to a step gives an equidistant grid from the first to the last sample (float grids): no exception", "a grid", got))
+    else:
+        tr, xr = np.asarray(got[0], dtype=float), np.asarray(got[1], dtype=float)
+        k = len(tr) - 1
+        if len(tr) != len(xr):
+            bad.append(("time and data have equal length", len(tr), len(xr)))
+        elif k < 1 or tr[0] != t[0] or tr[-1] != t[-1] or abs(k - span / dd) > 0.5 + 1e-6 or \
+                not np.allclose(np.diff(tr), span / k, rtol=1e-9, atol=tol):
+            bad.append(("resampling to a step gives an equidistant grid from the first to the last sample whose spacing is the one closest "
+                        "to the request (float grids)", "k=%s" % round(span / dd), tr[:6].tolist()))
+        elif not np.allclose(xr, np.interp(tr, t, np.sin(t)), rtol=1e-9, atol=1e-9):
+            bad.append(("resampling returns the linear interpolation of the stored samples on the requested grid (float grids)",
+                        np.interp(tr, t, np.sin(t))[:5].tolist(), xr[:5].tolist()))
+    return bad
+
+
+def run(chk):
     chk.extra["rule"] = RULE
     chk.assumptions += ["dyadic sample times and values; interp1d's slope division is exact or compared to 1e-12",
                         "stage functions replaced by tag functions on both sides for the order/dt correspondence; their numerics are C12's subject"]
     rng = chk.rng
     drv = core.Driver()
+    corpus = core.load_corpus("C11")
     N = 500 if chk.quick else 8000
     lines, meta = [], []
+    for c in corpus:
+        if "opts" in c:
+            t, x = [Fraction(v) for v in c["t"]], [Fraction(v) for v in c["x"]]
+            meta.append((t, x, opts_unjson(c["opts"]), c.get("filter", "lp"), c.get("spell") or {}, "corpus pl.get"))
     for _ in range(N):
         t, x = gen_series(rng)
-        o = gen_opts(rng, t)
-        if o["resample"] is not None and o["resample"][0] == "step":
-            # the number of grid points is round((t1-t0)/d): an exact tie (x.5) in rational arithmetic may fall on either side
-            # in floating point when d is not exactly representable — keep ties out of the exact correspondence
-            tw = [u for u in t if o["twin"] is None or o["twin"][0] <= u <= o["twin"][1]]
-            if len(tw) >= 2:
-                ratio = (tw[-1] - tw[0]) / o["resample"][1]
-                if (2 * ratio).denominator == 1 and (2 * ratio).numerator % 2 == 1:
-                    o["resample"] = ("step", o["resample"][1] * Fraction(9, 8))
+        spell = gen_spell(rng)
+        if spell.get("series") == "int":
+            # a series that integer arrays can hold: integer sample times (uniform or not) and integer data
+            t = [Fraction(int(t[0])) + i for i in range(len(t))] if rng.random() < 0.5 else \
+                [Fraction(v) for v in np.cumsum([int(t[0])] + [rng.choice([1, 1, 2, 3]) for _ in t[1:]]).tolist()]
+            x = [Fraction(rng.randint(-64, 64)) for _ in x]
+        o = avoid_tie(gen_opts(rng, t), t)
+        meta.append((t, x, o, rng.choice(["lp", "hp", "bp", "bs"]), spell, "pl.get"))
+    for t, x, o, ftype, spell, stream in meta:
         lines.append("pl.get %s | %s | %s" % (opts_line(o), " ".join(rat(v) for v in t), " ".join(rat(v) for v in x)))
-        meta.append((t, x, o, rng.choice(["lp", "hp", "bp", "bs"])))
     outs = drv.run(lines)
-    for (t, x, o, ftype), out in zip(meta, outs):
+    for (t, x, o, ftype, spell, stream), out in zip(meta, outs):
         inp = dict(t=[str(v) for v in t], x=[str(v) for v in x], opts=opts_json(o), filter=ftype)
-        chk.count("pl.get")
+        if spell:
+            inp["spell"] = spell
+        chk.count(stream)
         if any(o[k] for k in o):
             chk.nontriv(repr(inp))
         chk.dist("twin=%d res=%s stages=%d%d%d" % (o["twin"] is not None, "-" if o["resample"] is None else o["resample"][0],
                                                   o["taper"], o["filter"], o["smooth"]))
+        for k in sorted(spell):
+            chk.dist("spelling: %s=%s" % (k, spell[k]))
         if o["resample"] is not None and o["resample"][0] == "arr":
             pts = o["resample"][1]
             chk.dist("request: %s%s" % ("sorted" if pts == sorted(pts) else "unsorted",
                                         "" if all(t[0] <= q <= t[-1] for q in pts) else
                                         (" outside-at-end" if not (t[0] <= pts[0] <= t[-1] and t[0] <= pts[-1] <= t[-1]) else " outside-interior")))
-        im1, im2, bad = tagged_clauses(t, x, o, ftype)
-        for oracle, exp, obs in bad:
-            chk.fail(oracle, inp, exp, obs)
-        # the model is compared with the first call and with the same call repeated on the same object
-        for nth, im in (("pl.get", im1), ("pl.get (same call repeated)", im2)):
-            if out.startswith("err") or im[0] != "ok":
-                if out.strip() != im[0]:
-                    # window empty + step resample: numpy raises IndexError — model `err index`
-                    chk.disagree(nth, inp, out, im[0])
-                continue
-            mt, mx = [[float(Fraction(v)) for v in part.split()] for part in out[3:].split("|")]
-            ok = len(mt) == len(im[1]) and len(mx) == len(im[2]) and np.allclose(mt, im[1], rtol=1e-12, atol=1e-12) and \
-                np.allclose(mx, im[2], rtol=1e-11, atol=1e-11)
-            if not ok:
-                chk.disagree(nth, inp, [mt[:6], mx[:6]], [im[1][:6].tolist(), im[2][:6].tolist()])
+        try:
+            im1, im2, bad = tagged_clauses(t, x, o, ftype, spell)
+        except Exception as e:
+            chk.fail("the implementation raised where the harness did not expect it (a crash is a failing clause)", inp, "no exception",
+                     type(e).__name__ + ": " + str(e)[:120])
+            continue
+        compare_get(chk, inp, out, im1, im2, bad)
     # ---- clauses on the unpatched implementation ---------------------------------------------------------------------------------
     M = 300 if chk.quick else 5000
     lines, meta = [], []
     todo = []
-    for c in core.load_corpus("C11"):
+    for c in corpus:
+        if "opts" in c or "start" in c:
+            continue
         todo.append(([Fraction(v) for v in c["t"]], [Fraction(v) for v in c["x"]], {k: c[k] for k in CASE_KEYS if k in c}, "corpus"))
     for _ in range(M):
-        t, x = gen_series(rng)
-        todo.append((t, x, gen_case(rng, t, x), "clauses"))
+        t, x, xpow = gen_series_wide(rng)
+        todo.append((t, x, gen_case(rng, t, x, xpow), "clauses"))
     for t, x, case, stream in todo:
         inp = dict(t=[str(v) for v in t], x=[str(v) for v in x])
         chk.count(stream)
@@ -723,64 +1402,135 @@ def run(chk):
                                   "in-place changes only" if all(o in MUTATORS for o in ops) else "queries and in-place changes"))
         for o in sorted(set(ops)):
             chk.dist("history step: %s" % o)
+        for h in hist:
+            if step_op(h) == "bad":
+                chk.dist("refused operation: %s" % h["what"])
         if any(step_op(h) != "get" and not h.get("kw") and step_op(h) in ("minima", "maxima", "get_edit") + GETKW_QUERIES for h in hist):
             chk.dist("history: a non-get query without any get-option")
+        chk.dist("series: %s%s%s%s" % (case.get("series", "float"), ", data x 2^%d" % case["xpow"] if case.get("xpow") else "",
+                                      ", time offset beyond 2^20" if max(abs(t[0]), abs(t[-1])) > BIG_T else "",
+                                      ", %d samples" % len(t) if len(t) < 3 else ""))
+        if case.get("sibling"):
+            chk.dist("two series queried alternately")
+        for w in case.get("wins", []):
+            chk.dist("window via %s" % w.get("via", "get"))
+            chk.dist("window spelled as %s" % w.get("spell", "tuple"))
+        if "step_spell" in case:
+            chk.dist("step spelled as %s" % case["step_spell"])
+        xmul = Fraction(2) ** int(case.get("xpow", 0))
+        t2, x2, ref = t, x, bool(case.get("dtg_ref"))
+        try:
+            for h in hist:
+                t2, x2, ref = model_step(t2, x2, ref, h, xmul)
+        except Exception as e:
+            raise RuntimeError("corpus / generator error in history %r: %s" % (hist, e))
         if "req" in case:
             # classified on the series as stored after the history
-            t2, x2, ref = t, x, bool(case.get("dtg_ref"))
-            for h in hist:
-                t2, x2, ref = model_step(t2, x2, ref, h)
             pts = [Fraction(v) for v in case["req"]]
             inside = [t2[0] <= q <= t2[-1] for q in pts]
             chk.dist("request: %s%s" % ("sorted" if pts == sorted(pts) else "unsorted",
                                         "" if all(inside) else (" outside-at-end" if not (inside[0] and inside[-1]) else " outside-interior")))
-        ts, t2, x2, bad = direct_clauses(t, x, case)
+        try:
+            ts, t2, x2, bad = direct_clauses(t, x, case)
+        except Exception as e:
+            chk.fail("the implementation raised where the harness did not expect it (a crash is a failing clause)",
+                     fail_input(inp, case, [k for k in CASE_KEYS if k in case]), "no exception", type(e).__name__ + ": " + str(e)[:120])
+            continue
         for oracle, keys, exp, obs, nsteps in bad:
             chk.fail(oracle, fail_input(inp, case, keys, nsteps), exp, obs)
-        # stand-alone resampling of the series as stored after the history: exact correspondence only for dyadic steps
-        # (np.arange's length ceil((b-a)/d) is then exact)
-        d2 = (t2[-1] - t2[0]) / rng.choice([1, 2, 4, 8]) * rng.choice([Fraction(1), Fraction(5, 4), Fraction(3, 4)])
-        lines.append("pl.resample %s | %s | %s" % (rat(d2), " ".join(rat(v) for v in t2), " ".join(rat(v) for v in x2)))
-        meta.append((ts, d2, fail_input(inp, case, []), t2[-1] - t2[0]))
+        # on the object as it is after the history, against the model on the series stored then:
+        # (1) stand-alone resampling: exact correspondence only for dyadic steps (np.arange's length ceil((b-a)/d) is then exact)
+        base = fail_input(inp, case, [])
+        if len(t2) >= 2:
+            d2 = (t2[-1] - t2[0]) / rng.choice([1, 2, 4, 8]) * rng.choice([Fraction(1), Fraction(5, 4), Fraction(3, 4)])
+            lines.append("pl.resample %s | %s | %s" % (rat(d2), " ".join(rat(v) for v in t2), " ".join(rat(v) for v in x2)))
+            meta.append(("resample", ts, dict(base, dt=str(d2), dt_spell=rng.choice(["float", "float", "np.float64", "int", "positional"])),
+                         (d2, t2[-1] - t2[0])))
+        # (2) interpolation at a requested array
+        if "req" in case:
+            lines.append("pl.interp | %s | %s | %s" % (" ".join(rat(v) for v in t2), " ".join(rat(v) for v in x2),
+                                                      " ".join(rat(Fraction(v)) for v in case["req"])))
+            meta.append(("interp", ts, dict(base, req=case["req"]), (x2,)))
+        # (3) a tagged request: stage order and the filter's sampling interval on an object with a past (in-place changes may have
+        #     made it non-uniform since it was built)
+        if len(t2) >= 3 and max(abs(t2[0]), abs(t2[-1])) <= BIG_T and not case.get("xpow"):
+            o2 = gen_opts(rng, t2)
+            o2["filter"] = o2["filter"] or rng.random() < 0.5
+            if rng.random() < 0.4:
+                o2["filter"], o2["resample"] = True, None
+            o2 = avoid_tie(o2, t2)
+            ftype = rng.choice(["lp", "hp", "bp", "bs"])
+            lines.append("pl.get %s | %s | %s" % (opts_line(o2), " ".join(rat(v) for v in t2), " ".join(rat(v) for v in x2)))
+            meta.append(("get", ts, dict(base, opts=opts_json(o2), filter=ftype), (t2, x2, o2, ftype)))
     outs = drv.run(lines)
-    for (ts, d, inp, span), out in zip(meta, outs):
+    for (kind, ts, inp, more), out in zip(meta, outs):
+        if kind == "get":
+            t2, x2, o2, ftype = more
+            chk.count("pl.get after a history")
+            try:
+                im1, im2, bad = tagged_clauses(t2, x2, o2, ftype, None, ts)
+            except Exception as e:
+                chk.fail("the implementation raised where the harness did not expect it (a crash is a failing clause)", inp, "no exception",
+                         type(e).__name__ + ": " + str(e)[:120])
+                continue
+            compare_get(chk, inp, out, im1, im2, bad, "pl.get after a history")
+            continue
+        if kind == "interp":
+            chk.count("pl.interp")
+            reqf = [float(Fraction(v)) for v in inp["req"]]
+            im = attempt(lambda: [float(v) for v in ts.interpolate(np.array(reqf))])
+            if out.startswith("err") or isinstance(im, str):
+                if not (out.startswith("err") and im == "ValueError"):
+                    chk.disagree("pl.interp", inp, out, im)
+                continue
+            mv = [float(Fraction(v)) for v in out.split()[1:]]
+            if len(mv) != len(im) or not np.allclose(mv, im, rtol=1e-11, atol=1e-11 * xscale(more[0])):
+                chk.disagree("pl.interp", inp, mv[:6], im[:6])
+            continue
+        d, span = more
         chk.count("pl.resample")
+        how = inp.get("dt_spell", "float")
         try:
-            r = ts.resample(dt=float(d))
+            r = ts.resample(float(d)) if how == "positional" else ts.resample(dt=spell_step(d, how))
             im = [float(v) for v in r]
         except Exception as e:
             im = canon_err(e)
         if out.startswith("err") or isinstance(im, str):
             if not (out.startswith("err") and isinstance(im, str)):
-                chk.disagree("pl.resample", dict(inp, dt=str(d)), out, im)
+                chk.disagree("pl.resample", inp, out, im)
             if isinstance(im, str) and 0 < d <= span:
-                chk.fail("stand-alone resampling of the full duration to a positive step not exceeding it succeeds", dict(inp, dt=str(d)), "values", im)
+                chk.fail("stand-alone resampling of the full duration to a positive step not exceeding it succeeds", inp, "values", im)
             continue
         mv = [float(Fraction(v)) for v in out.split()[1:]]
-        if len(mv) != len(im) or not np.allclose(mv, im, rtol=1e-11, atol=1e-11):
-            chk.disagree("pl.resample", dict(inp, dt=str(d)), mv[:6], im[:6])
-    # ---- float exploration: stand-alone resample with decimal start / step -----------------------------------------------------------------
+        if len(mv) != len(im) or not np.allclose(mv, im, rtol=1e-11, atol=1e-11 * xscale(mv)):
+            chk.disagree("pl.resample", inp, mv[:6], im[:6])
+    # ---- float exploration: stand-alone resample / step resample with decimal start / step -------------------------------------------------
     F = 1500 if chk.quick else 40000
+    floats = [c for c in corpus if "start" in c]
     for _ in range(F):
         n = rng.randint(2, 60)
         dt0 = rng.choice([0.1, 0.2, 0.05, 0.3, 0.7, 0.01, 1e-3, 0.5, round(rng.uniform(0.01, 2), 2)])
-        start = rng.choice([0.0, 1.0, 0.3, 100.0, round(rng.uniform(-10, 1000), 1)])
+        start = rng.choice([0.0, 1.0, 0.3, 100.0, round(rng.uniform(-10, 1000), 1), 1e6, 1e9 + 0.1, -12345.6])
         t = start + dt0 * np.arange(n)
-        ts = TimeSeries("s", t, np.sin(t))
-        d = rng.choice([dt0, dt0 / 2, 2 * dt0, dt0 * 3, (t[-1] - t[0]) / rng.randint(1, 7), round(rng.uniform(dt0 / 3, 3 * dt0), 3)])
+        d = rng.choice([dt0, dt0 / 2, 2 * dt0, dt0 * 3, (t[-1] - t[0]) / rng.randint(1, 7), round(rng.uniform(dt0 / 3, 3 * dt0), 3), t[-1] - t[0]])
         if not (0 < d <= t[-1] - t[0]):
             continue
+        c = dict(start=start, dt0=dt0, n=n, dt=float(d))
+        if rng.random() < 0.2:
+            c["dt_spell"] = rng.choice(["np.float64", "np.float32"])
+            if c["dt_spell"] == "np.float32" and not (0 < float(np.float32(d)) <= t[-1] - t[0]):
+                del c["dt_spell"]
+        floats.append(c)
+    for c in floats:
         chk.count("float-resample")
-        inp = dict(start=start, dt0=dt0, n=n, dt=d)
+        inp = {k: c[k] for k in ("start", "dt0", "n", "dt", "dt_spell") if k in c}
         try:
-            r = ts.resample(dt=d)
+            bad = float_case(inp)
         except Exception as e:
-            chk.fail("stand-alone resampling of the full duration to a positive step not exceeding it succeeds (float grids)", inp,
-                     "values", type(e).__name__ + ": " + str(e)[:80])
-            continue
-        tn = np.arange(t[0], t[-1], step=d)
-        if len(r) < len(tn) - 1 or len(r) < 1:
-            chk.fail("all new times inside the original span are kept", inp, len(tn), len(r))
+            bad = [("the implementation raised where the harness did not expect it (a crash is a failing clause)", "no exception",
+                    type(e).__name__ + ": " + str(e)[:120])]
+        for oracle, exp, obs in bad:
+            chk.fail(oracle, inp, exp, obs)
     chk.sample(dict(t=[0, 1, 2, 3, 4], x=[0, 1, 4, 9, 16], opts="twin=(1,3) taper filter", model=[[1, 2, 3], [5, 11, 21]]))
     chk.sample(dict(t=[0, 1, 2, 3, 4], x=[0, 1, 4, 9, 16], req=[1, 5, 2], expected="raises (5 is outside the stored span)"))
     chk.sample(dict(t=[0, 1, 2, 3, 4], x=[0, 1, 4, 9, 16], history=[{"taperfrac": 0.1}], then="get()", expected=[[0, 1, 2, 3, 4], [0, 1, 4, 9, 16]]))
@@ -788,26 +1538,23 @@ def run(chk):
     chk.sample(dict(t=[0, 1, 2, 3, 4], x=[0, 1, 4, 9, 16], dtg_ref=True,
                     history=[{"op": "interpolate", "at": [0.5]}, {"op": "set_dtg_ref", "shift": "15/2"}], then="get(resample=[8.0])",
                     expected=[[8.0], [0.5]], note="the stored times are now 7.5 .. 11.5"))
+    chk.sample(dict(t=[0, 1, 2, 3, 4], x=[0, 1, 4, 9, 16], wins=[{"a": "1", "b": "inf", "spell": "list", "via": "geta"}],
+                    expected=[[1, 2, 3, 4], [1, 4, 9, 16]], note="TsDB.geta('s', twin=[1.0, inf])"))
 
 
 def replay(rp):
-    from qats import TimeSeries
     inp = rp["input"]
     bad = 0
     if "start" in inp:
-        t = inp["start"] + inp["dt0"] * np.arange(inp["n"])
-        try:
-            TimeSeries("s", t, np.sin(t)).resample(dt=inp["dt"])
-            print("resample ok")
-        except Exception as e:
-            print("FAILS: resample raises", e)
+        for oracle, exp, obs in float_case(inp):
+            print("FAILS:", oracle, "| expected", exp, "| observed", obs)
             bad += 1
-    elif "opts" in inp:
+    elif "opts" in inp and "history" not in inp and not any(k in inp for k in ("series", "xpow", "dtg_ref")):
         # tagged pipeline run (stage functions replaced by the tag functions, as in the check)
         t = [Fraction(v) for v in inp["t"]]
         x = [Fraction(v) for v in inp["x"]]
         o = opts_unjson(inp["opts"])
-        im1, im2, fails = tagged_clauses(t, x, o, inp.get("filter", "lp"))
+        im1, im2, fails = tagged_clauses(t, x, o, inp.get("filter", "lp"), inp.get("spell"))
         for nth, im in (("first call", im1), ("same call repeated", im2)):
             print(nth, "->", im[0] if im[0] != "ok" else [im[1].tolist()[:8], im[2].tolist()[:8]])
         for oracle, exp, obs in fails:
@@ -825,10 +1572,21 @@ def replay(rp):
         for oracle, keys, exp, obs, nsteps in fails:
             print("FAILS:", oracle, "| expected", exp, "| observed", obs)
             bad += 1
+        if "opts" in inp:
+            # tagged request on the object after its history
+            o = opts_unjson(inp["opts"])
+            im1, im2, fails = tagged_clauses(t, x, o, inp.get("filter", "lp"), None, ts)
+            for nth, im in (("first call", im1), ("same call repeated", im2)):
+                print(nth, "->", im[0] if im[0] != "ok" else [im[1].tolist()[:8], im[2].tolist()[:8]])
+            for oracle, exp, obs in fails:
+                print("FAILS:", oracle, "| expected", exp, "| observed", obs)
+                bad += 1
         if "dt" in inp:
             d = Fraction(inp["dt"])
+            how = inp.get("dt_spell", "float")
             try:
-                print("resample(dt=%s) ->" % d, np.asarray(ts.resample(dt=float(d))).tolist()[:8])
+                r = ts.resample(float(d)) if how == "positional" else ts.resample(dt=spell_step(d, how))
+                print("resample(dt=%s) ->" % d, np.asarray(r).tolist()[:8])
             except Exception as e:
                 print("resample(dt=%s) raises" % d, type(e).__name__, e)
                 if 0 < d <= t[-1] - t[0]:
